@@ -313,6 +313,26 @@ func checkC06(r *Run) []Violation {
 				}
 			}
 		}
+		// a handler that returned an error, a table lookup that failed: Stream reports
+		// it whatever else happened to the attempt (the caller cancelling at the same
+		// moment, the network failing behind it)
+		if !att.Hang && att.Returned && att.StreamPanic == "" && !att.StepCapped && att.StreamErr == nil {
+			for k, c := range att.Calls {
+				if c.Returned && c.Verdict != nil && c.InsideStream && !c.AfterReturn {
+					vs = append(vs, Violation{"C06", "stream-nil-on-failure", fmt.Sprintf("handler call %d returned %q (causes %v) and Stream returned nil", k+1, c.Verdict.Error(), att.Causes), i})
+					break
+				}
+			}
+			for k, mc := range att.MapperCalls {
+				if mc.Returned && mc.Verdict == "error" {
+					vs = append(vs, Violation{"C06", "stream-nil-on-failure", fmt.Sprintf("table lookup %d (%s.%s) failed (causes %v) and Stream returned nil", k+1, mc.DB, mc.Name, att.Causes), i})
+					break
+				}
+			}
+			if len(vs) > 0 {
+				return vs
+			}
+		}
 		if att.Hang || att.ErrorBlocked || att.StreamPanic != "" || len(att.Causes) == 0 {
 			continue
 		}
@@ -518,6 +538,12 @@ func checkC17(r *Run) []Violation {
 	for i, att := range r.Results {
 		if att.StreamPanic != "" {
 			vs = append(vs, Violation{"C17", "panic", firstLine(att.StreamPanic), i})
+			return vs
+		}
+		if att.Plan.Stream.GateAccepted {
+			// a bare header the gate accepts: the outcome of this attempt and of what
+			// follows is not specified; only the absence of a panic is (checked above,
+			// and by the process watchdog for panics on library goroutines)
 			return vs
 		}
 		// the malformed packet was the first thing that happened to the attempt; if the
